@@ -559,8 +559,43 @@ func sameExpr(a, b ssa.Value, d int) bool {
 	case *ssa.BinOp:
 		y, ok := b.(*ssa.BinOp)
 		return ok && x.Op == y.Op && sameExpr(x.X, y.X, d+1) && sameExpr(x.Y, y.Y, d+1)
+	case *ssa.Call:
+		// two calls of the same pure getter (body: return recv.field) on the same receiver
+		y, ok := b.(*ssa.Call)
+		if !ok {
+			return false
+		}
+		fx, fy := CalleeFn(x), CalleeFn(y)
+		if fx == nil || fx != fy || !isPureGetter(fx) || len(x.Call.Args) != len(y.Call.Args) {
+			return false
+		}
+		for i := range x.Call.Args {
+			if !sameExpr(x.Call.Args[i], y.Call.Args[i], d+1) {
+				return false
+			}
+		}
+		return true
 	}
 	return false
+}
+
+// isPureGetter: the function only loads fields of its parameters and returns them.
+func isPureGetter(f *ssa.Function) bool {
+	if f == nil || len(f.Blocks) != 1 {
+		return false
+	}
+	for _, in := range f.Blocks[0].Instrs {
+		switch x := in.(type) {
+		case *ssa.FieldAddr, *ssa.Field, *ssa.Return, *ssa.DebugRef:
+		case *ssa.UnOp:
+			if x.Op != token.MUL {
+				return false
+			}
+		default:
+			return false
+		}
+	}
+	return true
 }
 
 // Implementations returns the repo functions that can be the target of an interface method call (CHA restricted
